@@ -4,7 +4,7 @@
    (every copy made of a task's output has exactly one consumer).  That no goroutine stays
    blocked is OBSERVED by the harness (harness/cmd/c19), not proved.
    Only statements, each closed by [exact]. *)
-From Eino Require Import Base.Util Model.StreamAcct Proofs.StreamAcct Model.StreamRun Proofs.StreamRun Model.StreamRunV0 Proofs.StreamRunV0 Model.StreamResume Proofs.StreamResume.
+From Eino Require Import Base.Util Model.StreamAcct Proofs.StreamAcct Model.StreamRun Proofs.StreamRun Model.StreamRunV0 Proofs.StreamRunV0 Model.StreamResume Proofs.StreamResume Proofs.StreamWeave Proofs.StreamWeaveRun.
 From Coq Require Import Permutation.
 Open Scope N_scope.
 
@@ -238,6 +238,59 @@ Theorem every_stream_drained_or_closed : forall (drains : handle -> bool) g cfg 
   forall h, created (s_hist s') h -> sclosed drains (s_hist s') h \/ sdrained drains (s_hist s') h.
 Proof. exact every_stream_drained_or_closed_s. Qed.
 Print Assumptions every_stream_drained_or_closed.
+
+(* ... with callback handlers.  The run model hands a node its input when its task is created and takes
+   the node's output as a fresh handle; with handlers the framework copies the stream at both places
+   (internal/callbacks.OnWithStreamHandle — the function of callback_copies_have_one_consumer, tied to the
+   code by Proofs/GenAgreeAcct.v): n handlers get one copy each, the last copy continues.  [weave isites
+   osites nxt] inserts exactly these events into the history, for ANY assignment of handler counts to the
+   handles that are consumed (node inputs, the input of a nested run) and to the fresh handles (node
+   outputs, the run's own output site), with names [nxt ..] the run did not use.  Under the property's
+   hypothesis that a handler closes (or reads to its end) the copy it is given: every stream of the woven
+   history — those of the run model, every callback copy, every node's own output stream — is released,
+   and the weaving only adds streams with new names. *)
+Theorem every_stream_released_with_callbacks :
+  forall (isites osites : handle -> nat) nxt g cfg start tms out dropped st s',
+  NoDup (all_keys g) -> ~ In kEND (all_keys g) ->
+  (g_dag g = true -> covered g = true /\ all_finished g st = true) ->
+  (g_dag g = false -> dropped = [] /\ g_eager g = false) ->
+  run_int g cfg start tms = Ok (SDone out dropped st) ->
+  consume out (rs_store st) = Ok s' ->
+  let W := weave isites osites nxt (s_hist s') in
+  (forall h, created W h -> released W h)
+  /\ (forall h, created (s_hist s') h -> released W h)
+  /\ (forall h, created W h -> created (s_hist s') h \/ (nxt <= h)%N).
+Proof. exact every_stream_released_with_callbacks_s. Qed.
+Print Assumptions every_stream_released_with_callbacks.
+
+(* ... and "drained or closed" for the woven history, whatever each consumer (node, branch condition,
+   handler, caller) does with its handle *)
+Theorem every_stream_drained_or_closed_with_callbacks :
+  forall (drains : handle -> bool) (isites osites : handle -> nat) nxt g cfg start tms out dropped st s',
+  NoDup (all_keys g) -> ~ In kEND (all_keys g) ->
+  (g_dag g = true -> covered g = true /\ all_finished g st = true) ->
+  (g_dag g = false -> dropped = [] /\ g_eager g = false) ->
+  run_int g cfg start tms = Ok (SDone out dropped st) ->
+  consume out (rs_store st) = Ok s' ->
+  let W := weave isites osites nxt (s_hist s') in
+  forall h, created W h -> sclosed drains W h \/ sdrained drains W h.
+Proof. exact every_stream_drained_or_closed_with_callbacks_s. Qed.
+Print Assumptions every_stream_drained_or_closed_with_callbacks.
+
+(* the copy event the weaving inserts at a site with n + 1 handlers is the one OnWithStreamHandle makes *)
+Theorem woven_site_is_on_with_stream_handle : forall n h s,
+  let cs := fresh_handles (s_next s) (S n + 1) in
+  on_with_stream_handle (S n) h s
+  = (List.last cs h, List.removelast cs,
+     {| s_next := s_next s + N.of_nat (S n + 1); s_open := remove_one h (s_open s) ++ cs;
+        s_log := s_log s ++ [Z.of_nat (S n + 1)]; s_hist := HCopy h cs :: s_hist s |}).
+Proof. exact site_is_on_with_stream_handle. Qed.
+
+(* non-vacuity: a stream produced at a site with one handler and consumed at a site with one handler *)
+Example weave_nonvacuous :
+  weave (fun h => if N.eqb h 0 then 1%nat else 0%nat) (fun _ => 1%nat) 100 [HFresh 0; HConsume 0]
+  = [HFresh 100; HCopy 100 [101; 0]; HConsume 101; HCopy 0 [102; 103]; HConsume 102; HConsume 103].
+Proof. exact weave_example. Qed.
 
 (* without an interrupt configuration a single call is the run of Model/StreamRun.v: the theorems
    above specialise to open_empty_at_end_* / every_stream_released *)
